@@ -3,6 +3,6 @@ CONSTANTS
  DrainBug = FALSE
  LinkCode = FALSE
  DupPathBug = FALSE
- Table <- QuickTable
+ Ids <- QuickIds
 INVARIANTS PropHolds Ordered PassBound
 CHECK_DEADLOCK TRUE
